@@ -54,7 +54,7 @@ fn main_input_types(c: &Context) -> Vec<Type> {
 }
 
 pub fn run(ctx: &mut Ctx) {
-    let total = ctx.q(8000, 150000);
+    let total = ctx.q(16000, 150000);
     ctx.cases("compiled", total, |ctx, idx| {
         let prog = gen_mpc_opts(&mut ctx.rng, 3, 12, true);
         ctx.count("programs", 1);
@@ -127,7 +127,7 @@ pub fn run(ctx: &mut Ctx) {
             ctx.sample(detail);
         }
     });
-    let total = ctx.q(40000, 600000);
+    let total = ctx.q(80000, 600000);
     ctx.cases("ginl", total, |ctx, _idx| {
         let prog = gen_inl(&mut ctx.rng);
         ctx.count("inl_programs", 1);
